@@ -93,6 +93,33 @@ Theorem C18_collapsed_survives_cleanup : forall (st : store) (h : tid) (ca : lis
 Proof. exact collapsed_survives_cleanup. Qed.
 Print Assumptions C18_collapsed_survives_cleanup.
 
+(* ------------------------------------------------------------------ locks play no part in it
+   [run_phases_l locks] is the reload loop of a worker that cannot take the locks in [locks] (held by another
+   worker, left behind by a worker killed between storing a result and releasing its lock, or marked failed).
+   Every phase loads [load st p]: the loader - and with it the decision whether a compound is collapsed
+   (C18_computed_is_one_task) or expanded (C18_not_computed_is_expansion) - has no lock parameter at all;
+   locks only remove tasks from what is run.  [cleanup] has none either (--keep-locks or not). *)
+Theorem C18_loading_ignores_locks : forall (locks : list tid) (f : nat) (st : store) (p : jprog),
+  run_phases_l locks (S f) st p =
+  let l := load st p in
+  let '(st1, ex) := exec_all st (unlocked locks (l_tasks l)) in
+  if l_hasbarrier l then let '(st2, exs) := run_phases_l locks f st1 p in (st2, ex :: exs)
+  else (st1, [ex]).
+Proof. exact run_phases_l_step. Qed.
+Print Assumptions C18_loading_ignores_locks.
+
+Theorem C18_no_locks_is_the_plain_loop : forall (fuel : nat) (st : store) (p : jprog),
+  run_phases_l [] fuel st p = run_phases fuel st p.
+Proof. exact run_phases_l_nil. Qed.
+Print Assumptions C18_no_locks_is_the_plain_loop.
+
+(* a task (inner task, compound, anything) whose lock someone else holds gets no result from this worker, and
+   a result stored under its hash - the value of a collapsed compound with a stale lock - stays as it is *)
+Theorem C18_locked_hash_is_left_alone : forall (locks : list tid) (fuel : nat) (st : store) (p : jprog) (u : tid),
+  is_locked locks u = true -> lookup (fst (run_phases_l locks fuel st p)) u = lookup st u.
+Proof. exact run_phases_l_locked_untouched. Qed.
+Print Assumptions C18_locked_hash_is_left_alone.
+
 (* ------------------------------------------------------------------ non-vacuity
    t1 = inc(1);  c = compound[10](t1){ t2 = dbl(t1);
                                         d = compound[11](t2){ t3 = inc(t2); barrier(); return (t3, t2) };
@@ -128,6 +155,16 @@ Example C18_nonvacuous :
    | Some s => functionalb (slog s) && Nat.eqb (List.length (comps s)) 2%nat
    | None => false
    end = true).
+Proof. vm_compute. repeat split; reflexivity. Qed.
+
+(* with locks: a stale lock on the collapsed compound 10 changes nothing (3 tasks loaded, nothing run);
+   while another worker holds t3, this worker runs t1, t2 and then waits at the builder's barrier *)
+Example C18_nonvacuous_locks :
+  (let st := fst (run_phases 3%nat [] ex_prog) in
+   run_phases_l [10; 2] 2%nat st ex_prog = (st, [[]])) /\
+  snd (run_phases_l [3] 3%nat [] ex_prog) = [[1; 2]; []; []] /\
+  map tid_of (l_tasks (load (fst (run_phases_l [3] 3%nat [] ex_prog)) ex_prog)) = [1; 2; 3] /\
+  snd (run_phases_l [10] 3%nat [] ex_prog) = [[1; 2; 3]; [11]].
 Proof. vm_compute. repeat split; reflexivity. Qed.
 
 Example C18_nonvacuous_wf : wf [] ex_prog.
